@@ -270,11 +270,8 @@ def xarray_reduce(
     if dim is Ellipsis:
         if nby > 1:
             raise NotImplementedError("Multiple by are not allowed when dim is Ellipsis.")
-        name_ = by_da[0].name
-        if name_ in ds.dims and not isbins[0]:
-            dim_tuple = tuple(d for d in obj.dims if d != name_)
-        else:
-            dim_tuple = tuple(obj.dims)
+        # (also when grouping by a dimension coordinate: its labels may repeat, be missing or be unsorted)
+        dim_tuple = tuple(obj.dims)
     elif dim is not None:
         dim_tuple = _atleast_1d(dim)
     else:
